@@ -165,6 +165,12 @@ def _phis(rng, n, bits=3):
             out.append([f.numerator, f.denominator])
     if n >= 3 and rng.random() < 0.5:
         out[-1] = out[0]  # the same query again after others (stale state shows here)
+    if n >= 2 and bits >= 3 and rng.random() < 0.35:
+        # two DIFFERENT queries that agree to three decimals (a result memoised under a rounded phi is stale for the second)
+        i = rng.randrange(len(out))
+        f = Fraction(out[i][0], out[i][1])
+        g = f + Fraction(1, 4096) if f < 1 else f - Fraction(1, 4096)
+        out.insert(i + 1, [g.numerator, g.denominator])
     return out
 
 
